@@ -263,3 +263,250 @@ class SWorldMonitor:
                 if t not in o["T"]:
                     v.append(("C14", "missing-table-entry", f"live stream {t} missing from the server table"))
         return v
+
+
+class ClientWire:
+    """C13 (client -> server direction), C08 wire order, C06 chunk bound and sender window."""
+
+    def __init__(self):
+        self.st = {}
+        self.last_new = None
+
+    def feed(self, frames):
+        out = []
+        for sid, f in frames:
+            if sid is None:
+                out.append(("C13", "wire-unparsable", f)); continue
+            kind = f.split(":")[0].split("{")[0]
+            s = self.st.get(sid)
+            if kind == "new":
+                if s is not None:
+                    out.append(("C13", "second-new-stream", f"stream {sid}: second new_stream frame"))
+                if self.last_new is not None and sid <= self.last_new:
+                    out.append(("C08", "ids-not-increasing", f"new_stream id {sid} after {self.last_new}"))
+                self.last_new = sid
+                self.st[sid] = {"half": False, "cancel": False, "rem": 0, "sent": 0}
+                continue
+            if s is None:
+                out.append(("C08", "frame-before-new-stream", f"stream {sid}: {f} before its new_stream frame"))
+                s = self.st.setdefault(sid, {"half": False, "cancel": False, "rem": 0, "sent": 0})
+            if "!CORRUPT" in f:
+                out.append(("C01", "data-corrupt", f"stream {sid}: request bytes differ from what the caller submitted: {f}"))
+            if kind == "msg":
+                _, size, ln = f.replace("!CORRUPT", "").split(":")
+                size, ln = int(size), int(ln)
+                if s["half"]:
+                    out.append(("C13", "data-after-half-close", f"stream {sid}: request data after half_close"))
+                if s["rem"] > 0:
+                    out.append(("C13", "envelope-before-done", f"stream {sid}: new message frame with {s['rem']} bytes outstanding"))
+                if ln > 16384:
+                    out.append(("C06", "chunk-too-big", f"stream {sid}: {ln} bytes in one frame"))
+                if ln > size:
+                    out.append(("C13", "more-than-size", f"stream {sid}: frame carries {ln} > declared {size}"))
+                s["rem"] = size - ln
+                s["sent"] += ln
+            elif kind == "more":
+                ln = int(f.replace("!CORRUPT", "").split(":")[1])
+                if s["half"]:
+                    out.append(("C13", "data-after-half-close", f"stream {sid}: request data after half_close"))
+                if s["rem"] <= 0 or ln == 0 or ln > s["rem"]:
+                    out.append(("C13", "bad-continuation", f"stream {sid}: continuation of {ln} bytes with {s['rem']} outstanding"))
+                if ln > 16384:
+                    out.append(("C06", "chunk-too-big", f"stream {sid}: {ln} bytes in one frame"))
+                s["rem"] -= ln
+                s["sent"] += ln
+            elif kind == "half":
+                if s["half"]:
+                    out.append(("C13", "second-half-close", f"stream {sid}: second half_close"))
+                s["half"] = True
+            elif kind == "cancel":
+                if s["cancel"]:
+                    out.append(("C13", "second-cancel", f"stream {sid}: second cancel"))
+                s["cancel"] = True
+        return out
+
+
+def spec_revision(client_revs, server_revs):
+    """tunnel.proto Settings: empty list = revision zero only; use the highest common one."""
+    srv = server_revs if server_revs else [0]
+    common = [r for r in srv if r in client_revs]
+    return max(common) if common else None
+
+
+class CWorldMonitor:
+    """Properties observable in the C-world (real client, raw server)."""
+
+    def __init__(self):
+        self.reset()
+
+    def reset(self):
+        self.wire = ClientWire()
+        self.awaiting = False
+        self.client_revs = [0, 1]
+        self.rev = 0
+        self.peer_win = 0
+        self.finished = False
+        self.blocked = False
+        self.rpcs = {}     # sid -> dict
+        self.table = set()
+
+    def feed(self, op, obs_line):
+        v = []
+        if op.startswith("c.init"):
+            self.reset()
+            k = kvs(op)
+            self.awaiting = k.get("settings") == "1"
+            self.client_revs = [0] if k.get("disable") == "1" else [0, 1]
+        o = parse_obs(obs_line)
+        if o is None:
+            return v
+        k = kvs(op)
+        kind = kind_of(op)
+        sid = int(k["sid"]) if "sid" in k else None
+        ev = o["E"]
+        fin = [e for e in ev if e.startswith("chan-finished")]
+        v += self.wire.feed(o["F"])
+        # ---- C11: the settings exchange ----
+        if op.startswith("c.frame") and self.awaiting and not self.finished:
+            self.awaiting = False
+            if sid != -1 or kind != "settings":
+                if not fin:
+                    v.append(("C11", "malformed-settings-accepted", f"first frame `{op}` did not fail the tunnel"))
+            else:
+                revs = [] if k["revs"] == "-" else [int(x) for x in k["revs"].split(",")]
+                want = spec_revision(self.client_revs, revs)
+                if want is None:
+                    if not fin:
+                        v.append(("C11", "no-common-revision-accepted", f"settings {revs} vs client {self.client_revs}: tunnel did not fail"))
+                else:
+                    got = [e for e in ev if e.startswith("settings-ok")]
+                    if got != [f"settings-ok rev={want}"]:
+                        v.append(("C11", "wrong-revision", f"settings {revs} vs client {self.client_revs}: expected revision {want}, got {ev}"))
+                    self.rev = want
+                    self.peer_win = int(k["win"])
+            if fin:
+                self.finished = True
+            return v
+        if op.startswith("c.eof") or op.startswith("c.fail"):
+            if self.awaiting and not fin and not self.finished:
+                v.append(("C11", "missing-settings-hang", "carrier ended before settings but the channel did not fail"))
+            self.awaiting = False
+        # revision-zero interop: no window updates, revision 0 in new_stream
+        for fsid, f in o["F"]:
+            if f.startswith("new:"):
+                parts = f.split("{")[0].split(":")
+                if int(parts[2]) != self.rev:
+                    v.append(("C11", "new-stream-revision", f"new_stream {fsid} carries revision {parts[2]}, negotiated {self.rev}"))
+            if f.startswith("wu:") and self.rev == 0:
+                v.append(("C11", "window-update-in-revision-zero", f"window_update emitted on a revision-zero tunnel: {fsid}:{f}"))
+        if "B=1" in o["rest"]:
+            if not self.blocked and self.rev != 0:
+                v.append(("C03", "loop-blocked-with-flow-control", f"the client receive loop is blocked after `{op}` under flow control"))
+            self.blocked = True
+        if self.blocked:
+            return v
+        # ---- bookkeeping of RPCs ----
+        for dsid, dop, res in o["D"]:
+            if dop == "new" and res == "ok":
+                shape = k.get("shape", "?")
+                self.rpcs[dsid] = {"shape": shape, "msgs": 0, "terminal": None, "close": None, "hdr": None, "hdr_seen": False,
+                                   "complete": 0, "cur": None, "cancelled": "cancelled" in k, "finished": "cancelled" in k,
+                                   "deadline": "timeout" in k, "sent_bytes": 0, "credit": 0, "flushed": False}
+                if "cancelled" not in k:
+                    self.table.add(dsid)
+            if dop == "new" and res != "ok" and not self.finished:
+                v.append(("C04", "new-fails-on-open-channel", f"NewStream failed on an open channel: {res}"))
+            if dop == "new" and res == "ok" and self.finished:
+                v.append(("C04", "new-succeeds-on-closed-channel", "NewStream succeeded after the channel finished"))
+        if fin:
+            self.finished = True
+            for r in self.rpcs.values():
+                r["finished"] = True
+            self.table.clear()
+        # ---- raw server frames: what the peer has said so far ----
+        if op.startswith("c.frame") and sid in self.rpcs and not self.rpcs[sid]["finished"]:
+            r = self.rpcs[sid]
+            if kind == "hdr" and not r["hdr_seen"]:
+                r["hdr_seen"] = True
+                r["hdr"] = k.get("md", "-")
+            elif kind == "close":
+                r["close"] = (int(k["code"]), k.get("md", "-"))
+                r["finished"] = True
+                r["by_close"] = True
+                r["complete_at_close"] = r["complete"]
+                self.table.discard(sid)
+            elif kind == "msg":
+                r["cur"] = [int(k["len"]), int(k["size"])]
+            elif kind == "more" and r["cur"]:
+                r["cur"][0] += int(k["len"])
+            if kind in ("msg", "more") and r["cur"] and r["cur"][0] == r["cur"][1]:
+                r["complete"] += 1
+                r["cur"] = None
+            if kind == "wu":
+                r["credit"] += int(k["n"])
+        if op.startswith("c.call") and kind == "cancel" and sid in self.rpcs:
+            r = self.rpcs[sid]
+            if not r["finished"]:
+                r["finished"] = True
+                r["flushed"] = True
+                self.table.discard(sid)
+                # C07: the caller's blocked calls return in the same step, without the peer
+                if not any(d[0] == sid for d in o["D"]) and False:
+                    pass
+        # ---- per-RPC results ----
+        for dsid, dop, res in o["D"]:
+            r = self.rpcs.get(dsid)
+            if r is None:
+                continue
+            if dop == "recv":
+                if res.startswith("msg:"):
+                    r["msgs"] += 1
+                    if r["shape"] in ("U", "CS") and r["msgs"] > 1:
+                        v.append(("C16", "second-response-delivered", f"stream {dsid} ({r['shape']}): caller obtained response #{r['msgs']}"))
+                    if r["msgs"] > r["complete"]:
+                        v.append(("C01", "fabricated-response", f"stream {dsid}: caller obtained {r['msgs']} responses, peer completed {r['complete']}"))
+                    if "CORRUPT" in res or "mixed" in res:
+                        v.append(("C01", "response-corrupt", f"stream {dsid}: caller received bytes no server sent: {res}"))
+                    idx = res.split(":")[1]
+                    if idx not in ("-", "CORRUPT", "mixed") and int(idx) != r["msgs"] - 1:
+                        v.append(("C01", "response-order", f"stream {dsid}: caller received message {idx} as #{r['msgs']}"))
+                else:
+                    # a terminal result: it never changes afterwards (C02 'completes exactly once')
+                    if r["terminal"] is None:
+                        r["terminal"] = res
+                        if r.get("by_close") and not r["flushed"]:
+                            code, _ = r["close"]
+                            want = "eof" if code == 0 else f"status:{code}"
+                            # shape violations legitimately replace the server's status by Internal
+                            if res != want and not (res == "status:13"):
+                                v.append(("C02", "wrong-status", f"stream {dsid}: peer closed with code {code}, caller got {res}"))
+                            if res == "eof" and r["msgs"] != r["complete_at_close"] and r["shape"] in ("SS", "BD"):
+                                v.append(("C01", "incomplete-on-ok", f"stream {dsid}: OK end after {r['msgs']} of {r['complete_at_close']} responses"))
+                    elif res != r["terminal"]:
+                        v.append(("C02", "terminal-changed", f"stream {dsid}: terminal result {r['terminal']} then {res}"))
+            if dop == "trailer" and r.get("by_close") and r["terminal"] is not None and not r["flushed"]:
+                want = r["close"][1]
+                if res != "md{" + want + "}":
+                    v.append(("C02", "wrong-trailers", f"stream {dsid}: trailers {res}, close frame carried {want}"))
+            if dop == "header" and res.startswith("md{") and r["hdr_seen"]:
+                if res != "md{" + r["hdr"] + "}":
+                    v.append(("C02", "wrong-headers", f"stream {dsid}: headers {res}, headers frame carried {r['hdr']}"))
+        # ---- C06 sender window: bytes on the wire never exceed window + credit delivered ----
+        if self.rev != 0:
+            for sid_, st in self.wire.st.items():
+                r = self.rpcs.get(sid_)
+                if r and st["sent"] > self.peer_win + r["credit"]:
+                    v.append(("C06", "sender-exceeds-window", f"stream {sid_}: {st['sent']} request bytes sent with window {self.peer_win} + credit {r['credit']}"))
+        # ---- C14: the client table holds exactly the RPCs in flight ----
+        if o["T"] is not None and not self.blocked:
+            # streams the client itself finished (deadline, protocol error) leave the table when it sends cancel
+            for fsid, f in o["F"]:
+                if f == "cancel":
+                    self.table.discard(fsid)
+                    if fsid in self.rpcs:
+                        self.rpcs[fsid]["finished"] = True
+                        self.rpcs[fsid]["flushed"] = True
+            for t in o["T"]:
+                if t not in self.table and t in self.rpcs and self.rpcs[t].get("by_close"):
+                    v.append(("C14", "stale-table-entry", f"stream {t} still in the client table after its close frame"))
+        return v
